@@ -53,10 +53,16 @@ func probe() {
 	rep.Extra["rollback_err"] = fmt.Sprint(err)
 	rep.Extra["rollback_writes"] = rw
 
-	// ---- first-block deviation
+	// ---- first-block deviation (never fatal: a tree that cannot even reopen is left to the checks)
 	found := false
 	var detail []interface{}
-	for attempt := 0; attempt < 64 && !found; attempt++ {
+	func() {
+		defer func() {
+			if r := recover(); r != nil {
+				detail = append(detail, map[string]interface{}{"probe_failed": fmt.Sprint(r)})
+				found = true // undetermined: keep the specification's default (deviation modelled)
+			}
+		}()
 		o2 := nodeOpts{names: []string{"s1", "s2"}, mount: []string{"s1", "s2", "t"}, cacheSize: 1000}
 		ref := newNode(&memBackend{dbm.NewMemDB()}, o2)
 		_ = ref.open()
@@ -68,12 +74,12 @@ func probe() {
 		_ = m.open()
 		m.set("s1", key(1), []byte("a"))
 		m.set("s2", key(2), []byte("b"))
-		r := m.commit(1) // stop after the first substore saved version 1
+		r := m.commit(1) // stop after the first database write of the first commit
 		if !r.crashed {
-			hx.Fatal("probe: commit with limit 1 did not crash")
+			panic("commit with limit 1 did not crash")
 		}
 		if err := m.open(); err != nil {
-			hx.Fatal("probe: reopen: %v", err)
+			panic("reopen: " + err.Error())
 		}
 		last := m.ms.LastCommitID()
 		p1, _ := readAll(m.ms.GetKVStore(m.keys["s1"]), [][]byte{key(1)})
@@ -91,8 +97,7 @@ func probe() {
 		if len(p1)+len(p2) > 0 || hex.EncodeToString(id2.Hash) != hex.EncodeToString(refID.Hash) {
 			found = true
 		}
-		break
-	}
+	}()
 	rep.Extra["firstblock_reproduces"] = found
 	rep.Extra["firstblock_detail"] = detail
 	rep.Print()
